@@ -33,6 +33,7 @@ From Sylt Require Import Lex.Regex Lex.Logos Lex.LayoutProofs Gen.GenTokens
   Syntax.Ast Syntax.Tok Parse.PrecTable Parse.Parser Parse.ParserProofs Parse.OpTree Parse.ExprRoundTrip
   Parse.Sugar Parse.Layout Parse.LayoutSim Parse.ParserTotal Parse.PreSim Parse.LayoutStmt Gen.GenPrec.
 From Sylt Require Parse.SimGen Parse.CommentSim.
+From Sylt Require Import Syntax.SugarNF Parse.StmtRoundTrip Parse.SugarNFProofs.
 Import ListNotations.
 
 Definition gen_ptab : ptab := interp GenPrec.table.
@@ -229,6 +230,47 @@ Theorem C14_comments_statement : forall ts ts' f, CommentSim.ec ts = CommentSim.
   end.
 Proof. exact (CommentSim.comments_statement gen_ptab C14_total_ok). Qed.
 
+(* ---- the sugar normal form (Syntax/SugarNF.v): the parser half of "all surface variants compile to the same code" ----
+   [snf_e] / [snf_s] / [snf_program] erase Parenthesis nodes, turn `a -> f(b)` into `f(a, b)`, turn a trailing expression
+   statement of a function body into `ret`, and drop EmptyStatements.  Every surface variant pair of C14 parses to
+   trees with equal normal forms (prime calls and `loop do` even to equal trees: C14_prime_call,
+   C14_loop_do_unconditional). *)
+Theorem C14_nf_paren : forall e1 e2, unparen e1 = unparen e2 ->
+  lower_ok e1 = true -> dwf e1 = true -> lower_ok e2 = true -> dwf e2 = true ->
+  forall rest, follow_rest gen_ptab false rest ->
+  exists f0, forall f, f0 <= f -> exists t1 c1 t2 c2,
+    parse_expression gen_ptab f (pp e1 ++ rest) = Ok (t1, c1) /\ parse_expression gen_ptab f (pp e2 ++ rest) = Ok (t2, c2)
+    /\ snf_e t1 = snf_e t2 /\ post c1 = rest /\ post c2 = rest.
+Proof. exact (nf_paren gen_ptab gen_ok). Qed.
+
+Theorem C14_nf_prime : forall fn args, is_capitalized fn = false -> lower_args args = true -> dwf_args args = true ->
+  forall rest, prime_end gen_ptab false rest ->
+  exists f0, forall f, f0 <= f -> exists t1 c1 t2 c2,
+    parse_expression gen_ptab f (prime_tokens fn args ++ rest) = Ok (t1, c1)
+    /\ parse_expression gen_ptab f (paren_tokens fn args ++ rest) = Ok (t2, c2)
+    /\ snf_e t1 = snf_e t2 /\ post c1 = rest /\ post c2 = rest.
+Proof. exact (nf_prime gen_ptab gen_ok). Qed.
+
+Theorem C14_nf_arrow : forall l fn args,
+  atomic l = true -> lower_ok l = true -> dwf l = true ->
+  is_capitalized fn = false -> lower_args args = true -> dwf_args args = true ->
+  forall rest, follow_rest gen_ptab false rest ->
+  exists f0, forall f, f0 <= f -> exists t1 c1 t2 c2,
+    parse_expression gen_ptab f (pp l ++ TK KArrow :: paren_tokens fn args ++ rest) = Ok (t1, c1)
+    /\ parse_expression gen_ptab f (paren_tokens fn (ACons l args) ++ rest) = Ok (t2, c2)
+    /\ snf_e t1 = snf_e t2 /\ post c1 = rest /\ post c2 = rest.
+Proof. intros l fn args. exact (nf_arrow gen_ptab gen_ok l fn args C14_arrow_ok). Qed.
+
+(* the implicit return value: a function body that ends in the expression statement `e` and one that ends in `ret e` *)
+Theorem C14_nf_implicit_ret : forall ps r b v pu,
+  snf_e (EFn ps r (b ++ [SExpr v]) pu) = snf_e (EFn ps r (b ++ [SRet (Some v)]) pu).
+Proof. exact snf_implicit_ret. Qed.
+
+(* comments and blank lines at the top level: files with the same statements up to EmptyStatements
+   (the conclusion of C14_comments_anywhere) have the same normal form *)
+Theorem C14_nf_program : forall ss ss', SimGen.noempty ss = SimGen.noempty ss' -> snf_program ss = snf_program ss'.
+Proof. exact snf_program_of_noempty. Qed.
+
 (* ---- stated, not proved ---- *)
 Definition C14_nl_in_brackets_statement_level : Prop := nl_in_brackets_statement_level gen_ptab.   (* refuted above *)
 Definition C14_ws_insert_whole_input : Prop := ws_insert_statement gen_table.
@@ -400,6 +442,11 @@ Print Assumptions C14_nl_in_brackets_statement_level_same_fuel_refuted.
 Print Assumptions C14_nl_in_brackets_statement_settled.
 Print Assumptions C14_comments_anywhere.
 Print Assumptions C14_comments_statement.
+Print Assumptions C14_nf_paren.
+Print Assumptions C14_nf_prime.
+Print Assumptions C14_nf_arrow.
+Print Assumptions C14_nf_implicit_ret.
+Print Assumptions C14_nf_program.
 Print Assumptions C14_layout_token.
 Print Assumptions C14_layout_skip.
 Print Assumptions C14_layout_lookahead.
